@@ -88,7 +88,16 @@ class GridDistortion:
         extent = np.linspace(-max_field, max_field, self.num_points)
         Hx, Hy = np.meshgrid(extent, extent)
 
-        if self.distortion_type == 'f-tan':
+        if self.distortion_type not in ('f-tan', 'f-theta'):
+            raise ValueError('''Distortion type must be "f-tan" or
+                                "f-theta"''')
+
+        if self.optic.field_type == 'object_height':
+            # paraxial image is proportional to the object point
+            const = self.optic.surface_group.y[-1, 0] / 1e-10
+            xp = const * Hx
+            yp = const * Hy
+        elif self.distortion_type == 'f-tan':
             const = (self.optic.surface_group.y[-1, 0] /
                      (np.tan(1e-10 * np.radians(self.optic.fields.max_field))))
             xp = const * np.tan(Hx * np.radians(self.optic.fields.max_field))
@@ -113,8 +122,12 @@ class GridDistortion:
         data['yr'] = np.reshape(self.optic.surface_group.y[-1, :],
                                 (self.num_points, self.num_points))
 
-        # optical system flips x, so must correct this
-        data['xp'] = np.flip(xp)
+        # angular x fields are launched with the opposite sign convention;
+        # object heights are not
+        if self.optic.field_type == 'object_height':
+            data['xp'] = xp
+        else:
+            data['xp'] = -xp
         data['yp'] = yp
 
         # Find max distortion
@@ -122,6 +135,8 @@ class GridDistortion:
                         (data['yp'] - data['yr'])**2)
         rp = np.sqrt(data['xp']**2 + data['yp']**2)
 
-        data['max_distortion'] = np.max(100 * delta / rp)
+        # the axial point of an odd grid has no relative distortion
+        off_axis = rp > 1e-12 * np.max(rp)
+        data['max_distortion'] = np.max(100 * delta[off_axis] / rp[off_axis])
 
         return data
